@@ -124,6 +124,20 @@ def check_run(ctx, cfg, dev, kw, ref, k, N, Tend, with_model=True):
                     want = want.reshape(-1)
                 if got is None or np.shape(got) != np.shape(want) or not np.array_equal(np.asarray(got, dtype=float), want):
                     fail(f"records-{col}", f"per-step column {col} read back differs from one record per step", column=col)
+    # ... and a per-step record describes the state its step ENDS with (the one a frame labelled s + 1 holds): the probe
+    # potentials / phases are those of the returned mu / psi at the probe sites, also when the step iterated (screening)
+    pp = getattr(ref.solver, "probe_points", None)
+    if pp is not None and N and "mu" in ref.sizes:
+        pp = np.asarray(pp, dtype=int)
+        got_mu, got_th = np.asarray(dyn.mu, dtype=float), np.asarray(dyn.theta, dtype=float)
+        for s_ in range(min(N, got_mu.shape[1] if got_mu.ndim == 2 else 0)):
+            st_ = ref.states[s_ + 1]
+            w_mu, w_th = np.asarray(st_["mu"])[pp], np.angle(np.asarray(st_["psi"])[pp])
+            ctx.count("probe_records_compared_with_the_state_after_the_step")
+            if not (np.array_equal(got_mu[:, s_], w_mu) and np.array_equal(got_th[:, s_], w_th)):
+                fail("records-probes-vs-state", f"per-step probe record {s_} is not the potential / phase at the probe sites of the state after {s_ + 1} updates "
+                     f"(max |mu_rec - mu_state| = {float(np.abs(got_mu[:, s_] - w_mu).max()):.3e}, max |theta_rec - theta_state| = {float(np.abs(got_th[:, s_] - w_th).max()):.3e})", record=int(s_))
+                break
     # times reported by the loaded solution
     want_t = np.array([ref.times[s] for s in exp], dtype=float)
     try:
